@@ -874,6 +874,41 @@ func rulePairingComplete(c *Ctx, rule string) {
 		}
 	}
 	if fill == nil {
+		// the table built by a private helper NewPairing calls (p.fillComplements())
+		fills := func(g *ssa.Function) bool {
+			for _, b := range g.Blocks {
+				for _, ins := range b.Instrs {
+					switch x := ins.(type) {
+					case *ssa.Call:
+						if builtinCall(x, "copy") != nil {
+							if sl, ok := x.Call.Args[0].(*ssa.Slice); ok {
+								if name, ok := fieldOf(sl.X, pkg, "Pairing"); ok && name == "complements" {
+									return true
+								}
+							}
+						}
+					case *ssa.Store:
+						if ia, ok := x.Addr.(*ssa.IndexAddr); ok {
+							if name, ok := fieldOf(ia.X, pkg, "Pairing"); ok && name == "complements" {
+								return true
+							}
+						}
+					}
+				}
+			}
+			return false
+		}
+		for _, b := range fn.Blocks {
+			for _, ins := range b.Instrs {
+				if call, ok := ins.(*ssa.Call); ok && fill == nil {
+					if g := call.Call.StaticCallee(); g != nil && g.Pkg == fn.Pkg && g.Blocks != nil && (g.Object() == nil || !g.Object().Exported()) && fills(g) {
+						fill = call
+					}
+				}
+			}
+		}
+	}
+	if fill == nil {
 		c.bad(rule, key, fn.Pos(), "NewPairing does not build the complements table at all: a table built later, on first use by ComplementTable, is built by whichever goroutines happen to ask first — alphabets are shared, and a second caller sees the table before it is filled and flagged, so the table form disagrees with the method form")
 		return
 	}
